@@ -294,6 +294,20 @@ pub fn gen_program(r: &mut Rng, max_q: usize, with_nonunitary: bool) -> Program 
             }
         }
     }
+    if with_nonunitary && r.chance(1, 3) {
+        // a classical register declared late, right before its first use (when the program is fed in chunks, the cut
+        // often falls before it: the register is then declared and used in the same later chunk, on top of a session
+        // that already has - usually different numbers of - qubits and classical bits)
+        let cs = r.range(1, 2);
+        let cn = "lt".to_string();
+        stmts.push(format!("creg {cn}[{cs}];"));
+        env.cregs.push((cn.clone(), cs));
+        stmts.push(format!("x {};", r.pick(&qubits)));
+        stmts.push(format!("measure {} -> {cn}[{}];", r.pick(&qubits), r.below(cs)));
+        if let Some(c) = gen_builtin_call(r, &qubits, &regs, &[]) {
+            stmts.push(format!("if({cn}=={}) {c}", r.below(1 << cs)));
+        }
+    }
     Program { decls, stmts, env }
 }
 
@@ -301,8 +315,10 @@ pub fn gen_program(r: &mut Rng, max_q: usize, with_nonunitary: bool) -> Program 
 pub fn plant(r: &mut Rng, env: &Env) -> (String, &'static str) {
     let qubits = env.qubits();
     let q0 = qubits[0].clone();
+    // the planted statement may stand anywhere: a register declared late (`lt`) is not yet known there
+    let early_cregs: Vec<(String, usize)> = env.cregs.iter().filter(|c| c.0 != "lt").cloned().collect();
     let (qn, qs) = env.qregs[0].clone();
-    let kind = r.below(40);
+    let kind = r.below(46);
     // control-overlap plants carry extra weight (several shapes share one error variant)
     let kind = if (28..34).contains(&kind) { 20 } else { kind };
     match kind {
@@ -350,7 +366,7 @@ pub fn plant(r: &mut Rng, env: &Env) -> (String, &'static str) {
             }
         }
         27 => {
-            if let Some((cn, cs)) = env.cregs.first() {
+            if let Some((cn, cs)) = early_cregs.first() {
                 (format!("measure {q0} -> {cn}[{}];", cs + r.below(2)), "IdxOutOfRange")
             } else {
                 (format!("measure {q0} -> nosuchc[0];"), "NoCReg")
@@ -371,11 +387,31 @@ pub fn plant(r: &mut Rng, env: &Env) -> (String, &'static str) {
             (format!("x {qn}[{idx}];"), "IdxOutOfRange")
         }
         38 | 39 => {
-            if let Some((cn, cs)) = env.cregs.first() {
+            if let Some((cn, cs)) = early_cregs.first() {
                 let idx = 64 * (1 + r.below(2)) + r.below(*cs);
                 (format!("measure {q0} -> {cn}[{idx}];"), "IdxOutOfRange")
             } else {
                 (format!("reset {qn}[{}];", 64 + r.below(qs)), "IdxOutOfRange")
+            }
+        }
+        40 | 41 | 42 => {
+            // the name of a formal parameter of a gate that was CALLED before, used outside any gate: it is unbound there
+            // (an evaluation context that keeps bindings from earlier calls would accept it)
+            let g = *r.pick(&["rx", "ry", "rz", "u1"][..]);
+            let p = *r.pick(&["theta", "phi", "lam", "t"][..]);
+            (format!("gate leakg({p}) a {{ {g}({p}) a; }}\nleakg(0.25) {q0};\n{g}({p}*2) {q0};"), "UnevaluatedArgument")
+        }
+        43 | 44 | 45 => {
+            // the same qubit given twice to a two-qubit gate: one target bit instead of two
+            let g = *r.pick(&["swap", "sqrt_swap", "i_swap", "sqrt_i_swap", "rxx(0.4)", "ryy(0.4)", "rzz(0.4)", "cswap"][..]);
+            if g == "cswap" && qubits.len() >= 2 {
+                (format!("cswap {},{},{};", qubits[1], q0, q0), "WrongRegNumber")
+            } else if g == "cswap" {
+                (format!("swap {q0},{q0};"), "WrongRegNumber")
+            } else if r.chance(1, 3) {
+                (format!("gate dupq a,b {{ {g} a,b; }}\ndupq {q0},{q0};"), "WrongRegNumber")
+            } else {
+                (format!("{g} {q0},{q0};"), "WrongRegNumber")
             }
         }
         0 => ("h nosuch[0];".into(), "NoQReg"),
@@ -401,7 +437,7 @@ pub fn plant(r: &mut Rng, env: &Env) -> (String, &'static str) {
         14 => ("gate badg2 a { h zz; }".into(), "MacroError"),
         15 => ("gate badg3(t) a { rx(u) a; }".into(), "MacroError"),
         16 => {
-            if let Some((cn, _)) = env.cregs.first() {
+            if let Some((cn, _)) = early_cregs.first() {
                 (format!("if({cn}==0) measure {q0} -> {cn}[0];"), "DisallowedNodeInIf")
             } else {
                 ("h nosuch[0];".into(), "NoQReg")
@@ -410,7 +446,7 @@ pub fn plant(r: &mut Rng, env: &Env) -> (String, &'static str) {
         17 => ("qreg averyveryveryveryveryverylongidentifier0123456789[1];".into(), "IdentIsTooLarge"),
         18 => ("qreg big[63];".into(), "RegisterIsTooLarge"),
         _ => {
-            if let (Some((cn, cs)), true) = (env.cregs.first(), true) {
+            if let (Some((cn, cs)), true) = (early_cregs.first(), true) {
                 if let Some((qn2, _)) = env.qregs.iter().find(|q| q.1 != *cs) {
                     return (format!("measure {qn2} -> {cn};"), "UnmatchedRegSize");
                 }
